@@ -188,6 +188,58 @@ func init() {
 		}
 		return Iface{}
 	})
+	// sync.Map, sequentially: an association list per map cell; keys are compared by value
+	type smEntry struct{ k, v Value }
+	smEntries := func(e *Engine, cell *Value) *[]smEntry {
+		m, _ := e.side["syncmaps"].(map[*Value]*[]smEntry)
+		if m == nil {
+			m = map[*Value]*[]smEntry{}
+			e.side["syncmaps"] = m
+		}
+		if m[cell] == nil {
+			m[cell] = &[]smEntry{}
+		}
+		return m[cell]
+	}
+	smFind := func(e *Engine, items *[]smEntry, k Value) int {
+		for i, it := range *items {
+			if e.decide(e.eqValues(it.k, k)) {
+				return i
+			}
+		}
+		return -1
+	}
+	reg("(*sync.Map).Load", func(e *Engine, fn *ssa.Function, a []Value, s ssa.Instruction) Value {
+		items := smEntries(e, e.deref(a[0], s))
+		if i := smFind(e, items, a[1]); i >= 0 {
+			return Tuple{(*items)[i].v, tTrue}
+		}
+		return Tuple{Iface{}, tFalse}
+	})
+	reg("(*sync.Map).Store", func(e *Engine, fn *ssa.Function, a []Value, s ssa.Instruction) Value {
+		items := smEntries(e, e.deref(a[0], s))
+		if i := smFind(e, items, a[1]); i >= 0 {
+			(*items)[i].v = a[2]
+		} else {
+			*items = append(*items, smEntry{a[1], a[2]})
+		}
+		return nil
+	})
+	reg("(*sync.Map).LoadOrStore", func(e *Engine, fn *ssa.Function, a []Value, s ssa.Instruction) Value {
+		items := smEntries(e, e.deref(a[0], s))
+		if i := smFind(e, items, a[1]); i >= 0 {
+			return Tuple{(*items)[i].v, tTrue}
+		}
+		*items = append(*items, smEntry{a[1], a[2]})
+		return Tuple{a[2], tFalse}
+	})
+	reg("(*sync.Map).Delete", func(e *Engine, fn *ssa.Function, a []Value, s ssa.Instruction) Value {
+		items := smEntries(e, e.deref(a[0], s))
+		if i := smFind(e, items, a[1]); i >= 0 {
+			*items = append((*items)[:i:i], (*items)[i+1:]...)
+		}
+		return nil
+	})
 	noopv := func(e *Engine, fn *ssa.Function, a []Value, s ssa.Instruction) Value { return nil }
 	for _, m := range []string{"(*sync.Mutex).Lock", "(*sync.Mutex).Unlock", "(*sync.RWMutex).Lock", "(*sync.RWMutex).Unlock", "(*sync.RWMutex).RLock", "(*sync.RWMutex).RUnlock"} {
 		reg(m, noopv)
